@@ -9,7 +9,7 @@ ALL = ["C%02d" % i for i in range(1, 20)]
 CHECKS = {
     "C12": ("exploration",
             "bounded exhaustive enumeration of unification problems (holes punched at every position and shift) against reference conversion and scope checks",
-            "Instances are all closed type-directed terms up to 5/6 nodes; patterns are the instance with a hole punched at every position with every shift 0..depth (both argument orders) and with two holes (distinct cells, the same cell twice) at pairs of positions; plus all ordered pairs of the 400/1200 smallest terms hole-free and holed (scope-escape and occurs-check configurations), plus holed patterns under contexts with parameters and definitions. For every success of the real unify: following the solutions terminates, every solution is in scope where its hole was written, the filled-in terms are convertible in the reference, the context is untouched.",
+            "Instances are all closed type-directed terms up to 5/6 nodes; patterns are the instance with a hole punched at every position with every shift 0..depth (both argument orders) and with two holes (distinct cells, the same cell twice) at pairs of positions; plus all ordered pairs of the 400/1200 smallest terms hole-free and holed (scope-escape and occurs-check configurations), plus holed patterns under contexts with parameters and definitions, plus problems with holes on both sides. For every success of the real unify: following the solutions terminates, every solution is in scope where its hole was written (the home depth of a hole, depth minus shift, is the same at every copy of it), the filled-in terms are convertible in the reference, the context is untouched.",
             "Trusted: reference conversion (fuel-bounded). `false` on a holed pair is never judged (unification is not complete across reduction). F-HOLE-COPY is a known finding attributed through hook H2.",
             "DESIGN.md 6/C12"),
     "C18": ("exploration",
@@ -44,22 +44,22 @@ CHECKS = {
             "DESIGN.md 6/C04"),
     "C05": ("exploration",
             "type-directed exhaustive enumeration of fully annotated well-typed programs, cross-examined by the reference checker, against the real front end",
-            "Every program produced by type-directed enumeration up to 6/7 nodes (8 goal types; groups of one and two definitions with recursion, mutual recursion and type aliases in both directions; computed annotations; polymorphic identity), the alias family with groups of up to 2/3 aliases in every order, and every closed annotated term up to 6/7 nodes that the reference accepts must be accepted by the real front end with a type convertible to the expected one; the elaborated term must equal the source term with holes filled (lock-step skeleton comparison). An abnormal ending on such a program is a violation.",
-            "Trusted: reference type checker, which also cross-examines the generator on every program. Rejections by the definition-order check alone are counted, not judged.",
+            "Every program produced by type-directed enumeration up to 6/7 nodes (8 goal types; groups of one and two definitions with recursion, mutual recursion and type aliases in both directions; computed annotations; polymorphic identity), the alias family with groups of up to 2/3 aliases in every order, and every closed annotated term up to 6/7 nodes that the reference accepts must be accepted by the real front end with a type convertible to the expected one; the elaborated term must equal the source term with holes filled (lock-step skeleton comparison). An abnormal ending on such a program is a violation. For the nested-group and definition-order families the verdict of the definition-order check is compared in both directions with a reference model of the rule (a definition evaluated before a definition it needs, directly or through functions it calls, is available).",
+            "Trusted: reference type checker, which also cross-examines the generator on every program. The order-rule model in engine/src/props/sem.rs (order_rule_violated).",
             "DESIGN.md 6/C05"),
     "C06": ("model_checking",
             "explicit-state exploration of the real evaluator with the real unifier/normaliser queried in every state, plus exhaustive term pairs against reference conversion",
-            "For every terminating ground-typed program of the space: normalize_weak_head of the elaborated term must equal the value reached by step*; in each of the first 30 states unify(s,s), unify(s0,s), unify(s_prev,s) must hold and leave the context untouched; the operand sweep is repeated through the normaliser; and for all ordered pairs of the 420/1000 smallest closed hole-free terms of each of 8 types unify(a,b) = unify(b,a) = reference conversion.",
+            "For every terminating ground-typed program of the space: normalize_weak_head of the elaborated term must equal the value reached by step*; in each of the first 30 states unify(s,s), unify(s0,s), unify(s_prev,s) must hold and leave the context untouched; the operand sweep is repeated through the normaliser; and for all ordered pairs of the 420/1000 smallest closed hole-free terms of each of 8 types (with stuck-operator terms under binders, multi-member definition groups and implicit/explicit twins of every function and function type in the set) unify(a,b) = unify(b,a) = reference conversion.",
             "Trusted: reference conversion (NbE with fuel; pairs that exhaust it are skipped).",
             "DESIGN.md 6/C06"),
     "C13": ("model_checking",
-            "stateless choice-tree exploration of hash-set iteration order through a hook, plus a repeat-run differential on the real binary",
-            "The only iteration over a hash container that reaches an output (parser::check_definition) is turned into a choice point by hook H1; a stateless DFS explorer replays permutation prefixes and enumerates every permutation at every choice point for every member of the definition-order family (all groups of up to 3/4 definitions, each a literal, a lambda or a non-value expression mentioning any subset of the group; at top level, nested in a called function, and nested with every definition also mentioning an enclosing parameter; at most 300/5000 leaves per program, capped trees are counted and the run is then not called exhaustive). All leaves of a program's choice tree must be byte-identical results. The ownership of the nondeterminism is cross-checked by launching the real binary (hooks off, fresh hash seed per process) 6/24 times per file on the examples and on multi-diagnostic programs, for both `check` and `run`.",
+            "stateless choice-tree exploration of hash-set iteration order through a hook, plus repeat-run differentials (in process with re-keyed hash containers, and on the real binary)",
+            "The only iteration over a hash container that reaches an output (parser::check_definition) is turned into a choice point by hook H1; a stateless DFS explorer replays permutation prefixes and enumerates every permutation at every choice point for every member of the definition-order family (all groups of up to 3 definitions - thorough: also 4 at top level with at most 48 leaves -, each a literal, a lambda or a non-value expression mentioning any subset of the group; at top level, nested in a called function, and nested with every definition also mentioning an enclosing parameter; at most 300/5000 leaves per program, capped trees are counted and the run is then not called exhaustive). All leaves of a program's choice tree must be byte-identical results. The ownership of the nondeterminism is cross-checked twice: the whole pipeline (tokenize, parse, type check, evaluate) is repeated 5/12 times in process on each of 37 k programs built to produce several diagnostics of every kind (lexical, name clashes with binders and within a group, unbound names, type faults, definition order) - std re-keys every new hash container, so a hash iteration anywhere that reaches the output shows as differing repetitions -, and by launching the real binary (hooks off, fresh hash seed per process) 6/24 times per file on the examples and on multi-diagnostic programs, for both `check` and `run`.",
             "Trusted: hook H1 (identity on ordered containers, so a repaired tree has no choice points). The process-level part is a repeat-run differential (sampling of hash seeds), labelled as such; the deciding step is the exhaustive permutation tree.",
             "DESIGN.md 6/C13"),
     "C15": ("exploration",
             "bounded exhaustive enumeration of texts/ranges, parse-tree node ranges and planted faults in systematically varied layouts",
-            "(a) error::listing is called on every text up to 5/6 fragments (ASCII, 2- and 4-byte letters, space, tab, LF, CRLF) with every diagnostic-shaped range and compared with a specification of the listing (lines shown, 1-based numbers, marked character columns). (b) Every node of the parse result of every sentence up to the bounds must carry a range inside the file whose text re-parses to that node. (c) Every sentence up to the bounds is laid out in 9 ways (fault on line 1/2/9/10, after non-ASCII text on the same line, broken over several lines, CRLF) with planted faults - every use unbound, every binder re-bound (all binder forms), a stray symbol in every gap - and the reported listing must mark exactly the planted identifier or symbol. Type faults are planted by the typed-program sweeps with the same oracle.",
+            "(a) error::listing is called on every text up to 5/6 fragments (ASCII, 2- and 4-byte letters, space, tab, LF, CRLF) with every diagnostic-shaped range and compared with a specification of the listing (lines shown, 1-based numbers, marked character columns). (b) Every node of the parse result of every sentence up to the bounds must carry a range inside the file whose text re-parses to that node. (c) Every sentence up to the bounds is laid out in 9 ways (fault on line 1/2/9/10, after non-ASCII text on the same line, broken over several lines, CRLF) with planted faults - every use unbound, every binder re-bound (all binder forms), a stray symbol in every gap - and the reported listing must mark exactly the planted identifier or symbol. Type faults (uniquely spelled atoms of the wrong class) are planted at every operand, condition, annotation, applicand, function-type domain and codomain position of the typed programs with the same oracle.",
             "Trusted: the listing specification and reader in engine/src/model/listing.rs. Reading adopted: a diagnostic for a parenthesised operand may cover the operand with or without the parentheses enclosing only it. One genuine defect is recorded as a known finding (F-RANGE-CHAIN) with a defect-model classifier.",
             "DESIGN.md 6/C15"),
     "C08": ("exploration",
@@ -74,7 +74,7 @@ CHECKS = {
             "DESIGN.md 6/C11"),
     "C16": ("exploration",
             "bounded exhaustive enumeration of parser outputs with a print / re-read round trip",
-            "Every sentence of grammar.y up to 5/6 tokens (full alphabet), 7/9 tokens (class alphabet) and 11-17 tokens (eight sub-grammar slices, including every binder form and let groups as binder domains) is parsed; the term is printed by gram's Display, re-tokenized and re-parsed in the same scope, and must equal the original up to names of unused function-type parameters and hole identity.",
+            "Every sentence of grammar.y up to 5/6 tokens (full alphabet), 7/9 tokens (class alphabet) and 11-17 tokens (eight sub-grammar slices, including every binder form and let groups as binder domains), and every naming of the let / binder slices up to 13 tokens over a small name pool (so printed names must resolve to the same binders), is parsed; the term is printed by gram's Display, re-tokenized and re-parsed in the same scope, and must equal the original up to names of unused function-type parameters and hole identity.",
             "Trusted: the comparison relation (engine/src/props/c16.rs). One genuine defect is recorded as a known finding (F-PRINT-IMPLICIT-PI, pinned by an existing unit test) with a defect-model classifier.",
             "DESIGN.md 6/C16"),
     "C14": ("exploration",
@@ -84,7 +84,7 @@ CHECKS = {
             "DESIGN.md 6/C14"),
     "C17": ("exploration",
             "systematic enumeration of input families on a ladder of sizes with a deterministic work counter",
-            "All 784 input families of period 1 and 2 over 28 syntactic wrappers (including chains that end in two parenthesised operands), each in 8 variants (well formed, truncated four ways, wrong token planted at three places), are run through the real tokenize+parse at n = 1, 2, 4, ... 512 (quick) / 8192 (thorough) nested repetitions on a 2 GiB stack; the work measure is the number of heap allocations (deterministic), backed by a wall-clock cap per rung. A finite ladder gives evidence of the growth law, not a proof for all n; exponential or super-quadratic behaviour shows up within the first rungs.",
+            "All 784 input families of period 1 and 2 over 28 syntactic wrappers (including chains that end in two parenthesised operands), each in 8 variants (well formed, truncated four ways, wrong token planted at three places), are run through the real tokenize+parse at n = 1, 2, 4, ... 512 (quick) / 8192 (thorough) nested repetitions on a 2 GiB stack; the work measure is the number of heap allocations (deterministic), backed by a wall-clock cap per rung. A second sweep runs 558 families of definition groups whose members mention each other by offset sets within {-2,-1,+1,+2,+3} (all lambdas / a non-value head then lambdas / all non-values; complete, truncated, wrong token) up to 256/2048 definitions under the same cap and envelope. A finite ladder gives evidence of the growth law, not a proof for all n; exponential or super-quadratic behaviour shows up within the first rungs.",
             "Trusted: heap allocations as a proxy for parser work; thresholds (40 T^2 + 2e5 absolute, factor 6 per doubling for well-formed input) are 20x / 3x above the values measured on the unchanged tree.",
             "DESIGN.md 6/C17"),
     "C07": ("exploration",
